@@ -125,6 +125,7 @@ def check(ctx: Ctx) -> None:
     ctx.rule("R4.4", "implicit raisers: int(<float>) needs an upper-bound/finiteness guard; dict[key] and list.remove(x) in parser/tokenizer need a dominating membership test")
     ctx.rule("R4.5", "input-controlled recursion (call-graph cycles reachable from parse_cdc) is under a handler that converts RecursionError, or carries a depth bound")
     ctx.rule("R4.8", "containers the parser consumes with remove/pop/clear are fresh per call (no state shared between elements): valid codes cannot be rejected because of earlier elements")
+    ctx.rule("R4.9", "scanner/parser state is per call: parse_cdc and CircuitBuilder.to_circuit use a fresh Parser(), Parser.process a fresh Tokenizer(); no module-level instances")
     ctx.rule("R4.6", "callers guarding parse_cdc: exception types they let through (informational)")
     ctx.rule("R4.7", "side conditions of the triage table: parser constructs connections from lists and calls the element setters with keywords only")
     ctx.assumptions += [
@@ -222,6 +223,33 @@ def check(ctx: Ctx) -> None:
         ctx.ok()
     else:
         ctx.violation("R4.7", "get_elements:not-a-dict", ge.module, ge.node, "get_elements no longer visibly returns a dict")
+
+    # R4.9 parser state is per call ------------------------------------------------------
+    for mod_, qual_ in ((CIRC, "parse_cdc"), (f"{CIRC}.circuit_builder", "CircuitBuilder.to_circuit")):
+        pf = model.fi(mod_, qual_)
+        ctx.instance("R4.9", f"{qual_} parses with a Parser of its own")
+        rets_ = [n for n in walk_ordered(pf.node) if isinstance(n, ast.Return) and n.value is not None]
+        ok_ = bool(rets_) and all(norm(r_.value).startswith("Parser().process(") for r_ in rets_ if "process(" in norm(r_.value)) \
+            and any("process(" in norm(r_.value) for r_ in rets_)
+        if ok_:
+            ctx.ok()
+        else:
+            ctx.violation("R4.9", f"{qual_}:shared-parser", mod_, pf.node,
+                          f"{qual_} does not parse with a fresh Parser(): token buffer and stack left behind by a rejected input can leak into the next call "
+                          f"(TypeError, or silently wrong circuits)")
+    shared = [n for m_ in ctx.repo.modules.values() for n in m_.tree.body if isinstance(n, (ast.Assign, ast.AnnAssign)) and n.value is not None
+              and isinstance(n.value, ast.Call) and dotted(n.value.func) in ("Parser", "Tokenizer")]
+    ctx.instance("R4.9", "no module-level Parser/Tokenizer instance")
+    if shared:
+        ctx.violation("R4.9", "module-level-parser", CIRC, shared[0], "a Parser/Tokenizer instance is kept at module level: its cursor state survives between calls")
+    else:
+        ctx.ok()
+    ps = model.fi(f"{CIRC}.parser", "Parser.process")
+    ctx.instance("R4.9", "Parser.process creates a Tokenizer per call")
+    if any(isinstance(n, (ast.Assign, ast.AnnAssign)) and n.value is not None and norm(n.value) == "Tokenizer()" for n in walk_ordered(ps.node)):
+        ctx.ok()
+    else:
+        ctx.violation("R4.9", "Parser.process:shared-tokenizer", f"{CIRC}.parser", ps.node, "Parser.process does not tokenize with a fresh Tokenizer()")
 
     # R4.2 cursor guards ---------------------------------------------------------------
     callers: Dict[str, List[Tuple[object, ast.Call]]] = {}
